@@ -24,7 +24,7 @@ From Coq Require Import ZArith NArith List Bool Strings.String.
 Require Import Regen.Base.Bytes Regen.Base.Calendar Regen.Dec.Dec.
 Require Import Regen.Ledger.Types Regen.Ledger.Msgs Regen.Ledger.Orm Regen.Ledger.BaseMsgs Regen.Ledger.Step
                Regen.Ledger.Amount Regen.Ledger.Inv.
-Require Import Regen.Genesis.Validators Regen.Genesis.MsgVsState.
+Require Import Regen.Genesis.Validators Regen.Genesis.MsgVsState Regen.Genesis.Exportable.
 Require Regen.Data.DataMsgs.
 Import ListNotations.
 Local Open Scope Z_scope.
@@ -106,6 +106,35 @@ Theorem C09_reachable_strict_dates : forall a s0 h s,
   Inv_core s -> small_state s -> Inv_valid s.
 Proof. exact (reachable_valid true). Qed.
 Print Assumptions C09_reachable_strict_dates.
+
+(* ---- the export itself cannot fail on a stored date criterion (finding F16) ---- *)
+
+(* protojson refuses a Timestamp outside 0001..9999 or with nanos outside [0, 1e9) and a Duration beyond 10000 years
+   or with mismatching nanos; a stored criterion outside that range made ExportGenesis panic for ever.  Every basket
+   of a state whose rows validate -- hence, by the two theorems above, of every reachable state -- is inside it. *)
+Theorem C09_criteria_exportable : forall s, Inv_valid s ->
+  forall id k, baskets s !! id = Some k -> json_criteria_ok (bk_criteria k).
+Proof. exact Inv_valid_criteria_exportable. Qed.
+Print Assumptions C09_criteria_exportable.
+
+Theorem C09_criteria_exportable_except_dates : forall s, Inv_valid_except_dates s ->
+  forall id k, baskets s !! id = Some k -> json_criteria_ok (bk_criteria k).
+Proof. exact Inv_valid_except_dates_criteria_exportable. Qed.
+Print Assumptions C09_criteria_exportable_except_dates.
+
+(* the message validator is where the range is enforced *)
+Theorem C09_criteria_message_check : forall c, vb_date_criteria c = true -> json_criteria_ok c.
+Proof. intros c H. apply valid_date_criteria_json, vb_date_criteria_valid, H. Qed.
+Print Assumptions C09_criteria_message_check.
+
+Example C09_criteria_boundaries :
+  json_criteria_ok (DCMinStart {| secs := 253402300799; nanos := 999999999 |}) /\
+  ~ json_criteria_ok (DCMinStart {| secs := 253402300800; nanos := 0 |}) /\
+  ~ json_criteria_ok (DCMinStart {| secs := 1500000000; nanos := -1 |}) /\
+  json_criteria_ok (DCWindow 315576000000 999999999) /\
+  ~ json_criteria_ok (DCWindow 86400 (-1)) /\
+  ~ json_criteria_ok (DCWindow 315576000001 0).
+Proof. exact json_criteria_boundaries. Qed.
 
 (* ---- refuted on the current tree ---- *)
 
